@@ -23,3 +23,9 @@ chk("C20", "metamorphic (relational) monitor: the same call evaluated under all 
 chk("C08", "table-driven reference-model monitor over the exhaustively enumerated special-value grid (all aliasing patterns)",
     "Exploration, exhaustive over a finite grid: 36 operand classes (NaN/sNaN/Inf/zeros of both signs and several exponents, representative finites) for both operands x 22 Context operations x 8 modes x 3 contexts x 2 trap sets x aliasing patterns; every defined cell compared with a table transcribed from the GDA specification.",
     "Trusted: the table in internal/props/c08.go (agrees with CPython decimal/libmpdec on all 41008 comparable cells except three documented apd conventions).", "DESIGN.md 4/C08")
+chk("C05", "differential (relational) monitor across aliasing patterns: the same call on all-distinct deep copies is the oracle",
+    "Exploration: every Context operation with random trap sets under d==x, d==y, x==y, d==x==y; Decimal.Modf/Neg/Abs/Reduce/Set with the receiver as argument (and nil outputs); BigInt methods under z==x, z==y, r==x, x==y, z==x==y; destination fields, Condition and error presence compared with the un-aliased call.",
+    "Trusted: nothing beyond field comparison; apd is compared with apd.", "DESIGN.md 4/C05")
+chk("C06", "purity monitor: destination pre-state differential, bit-for-bit operand/Context snapshots through the VerifRepr hook, shared-state fingerprint hook, canary calls re-evaluated over the process history",
+    "Exploration: each call is executed into a fresh destination and into destinations that previously held NaN/sNaN/Inf/huge/inline values; operands are snapshotted including the BigInt inline/heap representation; the fingerprint of all package-level constants and tables is compared throughout the run; 64 canary calls are re-evaluated after every workload family.",
+    "Trusted: the read-only hooks VerifRepr/VerifSharedState (verif build tag).", "DESIGN.md 4/C06")
